@@ -21,6 +21,7 @@ import Rsa.Lemmas.C03PosDefVec
 import Rsa.Lemmas.C03Coded3
 import Rsa.Lemmas.C03BuresBridge
 import Rsa.Lemmas.C03Gram
+import Rsa.Lemmas.C03Session
 import Mathlib.Tactic.IntervalCases
 import Mathlib.Algebra.BigOperators.Field
 
@@ -1187,5 +1188,89 @@ example : ∀ i j, i < 2 → j < 2 → (SigmaK.mat [[(1 : ℝ), 0], [0, 1]]).ent
     = gramOf 2 (fun i m => if i = m then 1 else 0) i j := by
   intro i j hi hj
   interval_cases i <;> interval_cases j <;> simp [SigmaK.entry, gramOf, Finset.sum_range_succ]
+
+/-! ## 12. Reuse sessions (round 4): the same stacks handed to several successive `compare()` calls
+
+`Rsa.Compare.callStep` models one call on a tiny heap (cells = arrays): `_parse_input_rdms` either
+copies or hands the caller's array on, the pre-processing (`v - mean`) either rebinds or writes in
+place.  Both flags are regenerated from the source text (`Rsa.Gen.C03.parseAlias`,
+`Rsa.Gen.C03.inplaceWrites`). -/
+
+/-- one call that copies on parsing or never writes in place: every array that existed before the
+    call is bit-identical afterwards, and the result is the measure of the *original* stacks -/
+theorem session_call_pure {β γ : Type} (c : Call β γ) (hs : c.safe = true) (st : Store β) (a b : Nat)
+    (ha : a < st.length) (hb : b < st.length) :
+    (∀ i, i < st.length → (callStep c st a b).1.getD i [] = st.getD i []) ∧
+    (callStep c st a b).2 = compareAll c.f ((st.getD a []).map c.pre) ((st.getD b []).map c.pre) :=
+  ⟨(callStep_safe c hs st a b ha hb).1.2, (callStep_safe c hs st a b ha hb).2⟩
+
+/-- every session of such calls, of any length, in any order of methods, on the same two cells (also
+    `a = b`: an object compared with itself): the k-th result is the k-th measure of the original
+    stacks and the caller's arrays are unchanged at the end -/
+theorem session_results_eq_definition {β γ : Type} (cs : List (Call β γ))
+    (hs : ∀ c ∈ cs, c.safe = true) (st : Store β) (a b : Nat) (ha : a < st.length) (hb : b < st.length) :
+    (sessionRun cs st a b).2 = sessionSpec cs (st.getD a []) (st.getD b []) ∧
+    (∀ i, i < st.length → (sessionRun cs st a b).1.getD i [] = st.getD i []) :=
+  ⟨(sessionRun_safe cs hs st a b ha hb).2, (sessionRun_safe cs hs st a b ha hb).1.2⟩
+
+set_option linter.unusedTactic false in
+set_option linter.unreachableTactic false in
+/-- the calls *as coded* are safe: the parser of the current source text returns fresh copies on
+    every return path (leaf `parseAlias` = 0) — or, should a later revision hand the caller's arrays
+    on, no `compare_*` function and no helper writes in place into them (leaf `inplaceWrites` = 0 for
+    every method).  Either fact alone suffices; the proof tries both, so an edit that breaks only one
+    of them (behaviour-preserving) keeps the theorem, the two together (C03-8) break it. -/
+theorem coded_call_safe {β γ : Type} (m : String) (n : Nat) (pre : β → β) (f : β → β → γ) :
+    (codedCall m n pre f).safe = true := by
+  simp only [codedCall, Call.safe]
+  first
+  | (simp [Rsa.Gen.C03.parseAlias]; done)
+  | (have h : Rsa.Gen.C03.inplaceWrites (methodCode m) = 0 := by
+      unfold Rsa.Gen.C03.inplaceWrites
+      repeat' split
+      all_goals rfl
+     simp [h])
+
+/-- `compare()` as coded, used repeatedly on the same stacks: for every list of (method, pre, f)
+    the results are those of the definition on the original stacks and the inputs are untouched -/
+theorem compare_session_pure {β γ : Type} (ms : List (String × (β → β) × (β → β → γ))) (n : Nat)
+    (st : Store β) (a b : Nat) (ha : a < st.length) (hb : b < st.length) :
+    let cs := ms.map (fun m => codedCall m.1 n m.2.1 m.2.2)
+    (sessionRun cs st a b).2 = ms.map (fun m => compareAll m.2.2 ((st.getD a []).map m.2.1)
+        ((st.getD b []).map m.2.1)) ∧
+    (∀ i, i < st.length → (sessionRun cs st a b).1.getD i [] = st.getD i []) := by
+  intro cs
+  have hs : ∀ c ∈ cs, c.safe = true := by
+    intro c hc
+    simp only [cs, List.mem_map] at hc
+    obtain ⟨m, _, rfl⟩ := hc
+    exact coded_call_safe _ _ _ _
+  obtain ⟨R, P⟩ := session_results_eq_definition cs hs st a b ha hb
+  refine ⟨?_, P⟩
+  rw [R]
+  simp [cs, sessionSpec, codedCall, List.map_map, Function.comp_def]
+
+/-- the `corr` call of a session (rows centred, then `_cosine`) is the correlation of section 2 -/
+theorem session_corr_is_corr (xs ys : List (List ℝ)) :
+    compareAll cosineCoded (xs.map center) (ys.map center) = compareAll corr xs ys := by
+  simp only [compareAll, List.map_map, Function.comp_def]
+  congr 1; funext x; congr 1; funext y
+  rw [cosineCoded_eq]; rfl
+
+/-- the hypothesis is needed: a parser that aliases together with an in-place centring makes a later
+    call see the centred data (the values of a `corr`-then-`sum` session on ℤ-valued rows) -/
+theorem session_alias_inplace_witness :
+    let c1 : Call (List Int) Int := ⟨true, true, fun r => r.map (· - r.sum / 3), fun x y => (x.zip y).foldl (fun s p => s + p.1 * p.2) 0⟩
+    let c2 : Call (List Int) Int := ⟨true, false, id, fun x y => (x.zip y).foldl (fun s p => s + p.1 * p.2) 0⟩
+    (sessionRun [c1, c2] [[[1, 2, 6]], [[3, 3, 0]]] 0 1).2 ≠ sessionSpec [c1, c2] [[1, 2, 6]] [[3, 3, 0]] ∧
+    (sessionRun [c1, c2] [[[1, 2, 6]], [[3, 3, 0]]] 0 1).1.getD 0 [] ≠ [[1, 2, 6]] := by
+  decide
+
+-- non-vacuity: a three-call session on two float-free stacks, both arguments valid cells, one call
+-- per flag combination that `Call.safe` admits
+example : (∀ c ∈ ([⟨false, true, id, fun x y => x + y⟩, ⟨true, false, (· + 1), fun x y => x * y⟩,
+      ⟨false, false, id, fun x y => x - y⟩] : List (Call Int Int)), c.safe = true) ∧
+    (0 < ([[1, 2], [3]] : Store Int).length ∧ 1 < ([[1, 2], [3]] : Store Int).length) := by
+  decide
 
 end Rsa.Props.C03
